@@ -1,9 +1,95 @@
-"""C04 (dimension-wise strategy part): see dimwise_props.py / dimwise_pipeline.py."""
+"""C04 - refinement never loses exactness the initial configuration had.
+
+Dimension-wise strategy: dimwise_props / dimwise_pipeline (discrete criterion InitialSpaceExact model-checked on DimWise.tla,
+numeric exactness of every initial hat required by DimWiseTrace.tla).  Extend-split strategy: ExtendSplit.tla invariant
+C07_LocalCombination (equivalent to exactness for multilinear functions) model-checked, numeric exactness of all multilinear
+monomials required by ExtendSplitTrace.tla (clause C04_MultilinearExact).  Cell strategy (lmin = lmax): natural refinement runs
+with the multilinear monomials carried as extra output components (harness check, no separate model)."""
+import itertools
+import random
+
+import numpy as np
+
+from harness.engine import impl
 from harness.drivers import dimwise_props
+from harness.drivers import c07_extendsplit as ES
+from harness.drivers import extendsplit_pipeline as EP
+
+
+def cell_runs(rep, tier):
+    from sparseSpACE.spatiallyAdaptiveCell import SpatiallyAdaptiveCellScheme
+    from sparseSpACE.Grid import TrapezoidalGrid
+    from sparseSpACE.GridOperation import Integration
+    from sparseSpACE.ErrorCalculator import ErrorCalculatorSurplusCell
+    cases = [(2, 2, [0.0, 0.0], [1.0, 1.0]), (2, 3, [-1.0, 0.5], [2.0, 1.5])] if tier == 'quick' else \
+        [(2, 2, [0.0, 0.0], [1.0, 1.0]), (2, 3, [-1.0, 0.5], [2.0, 1.5]), (3, 2, [0.0] * 3, [1.0] * 3), (2, 4, [0.0, 0.0], [1.0, 2.0])]
+    for D, lvl, a, b in cases:
+        a, b = np.array(a), np.array(b)
+        f, terms = EP.make_function(D, a, b)
+        grid = TrapezoidalGrid(a=a, b=b, boundary=True)
+        op = Integration(f=f, grid=grid, dim=D)
+        combi = SpatiallyAdaptiveCellScheme(a, b, operation=op)
+        mx = 0
+        for k in range(4 if tier == 'quick' else 6):
+            try:
+                with impl.quiet(), impl.watchdog(240):
+                    if k == 0:
+                        ret = combi.performSpatiallyAdaptiv(lvl, lvl, ErrorCalculatorSurplusCell(), tol=-1, max_evaluations=0, print_output=False)
+                    else:
+                        combi.refine()
+                        ret = combi.continue_adaptive_refinement(tol=-1, max_evaluations=0)
+            except impl.Timeout:
+                rep.exclude('cell D=%d level %d: timeout' % (D, lvl))
+                break
+            res = np.asarray(ret[3], dtype=float)
+            bad = []
+            for j, S in enumerate(terms):
+                ex = EP.monomial_integral(S, a, b)
+                if abs(res[2 + j] - ex) > 1e-10 * max(1.0, abs(ex)):
+                    bad.append([list(S), float(res[2 + j]), ex])
+            rep.count(1, key=('cell', D, lvl, k))
+            rep.residual('cell_multilinear_exact', not bad)
+            if bad:
+                rep.violation('C04_MultilinearExact', {'strategy': 'cell', 'D': D, 'level': lvl}, {'D': D, 'level': lvl, 'a': list(a), 'b': list(b), 'evaluation': k + 1, 'bad': bad},
+                              what='cell strategy D=%d level %d after %d refinements: %s' % (D, lvl, k, bad[:2]))
 
 
 def run(tier, seed):
-    return dimwise_props.run_prop('C04', tier, seed)
+    rep = dimwise_props.run_prop('C04', tier, seed, finish=False)
+    rep.level = 'model_checking'
+    # extend-split part
+    saved_pid = rep.pid
+    traces = ES.collect(rep, 'quick' if tier == 'quick' else 'thorough', seed + 7, ('C04_',)) if tier == 'thorough' else es_light(rep, seed)
+    verdicts, st, trn = EP.validate(traces)
+    rep.cov['states'] += st
+    rep.cov['transitions'] += trn
+    rep.cov['traces_validated_against_impl'] += len(traces)
+    for tr, v in zip(traces, verdicts):
+        for step, clause in v:
+            if clause.startswith('C04_'):
+                cfg = tr['_script']['cfg']
+                rep.violation(clause, ES.signature(tr, step, clause), {'script': tr['_script'], 'failing_step': step, 'detail': tr.get('_detail')},
+                              what='extend-split %s at step %d of %s' % ({k: cfg[k] for k in ('D', 'lmin', 'lmax', 'version', 'nrbe', 'auto', 'single')}, step, tr['origin']))
+    cell_runs(rep, tier)
+    return rep.finish()
+
+
+def es_light(rep, seed):
+    """quick tier: random and corner-chasing extend-split histories only (the edge replay is part of the C07 check)"""
+    rng = random.Random(seed + 7)
+    traces = []
+    for c, steps in ES.random_configs('quick', rng)[10:]:
+        try:
+            tr = EP.random_history(rng, c, steps)
+        except impl.Timeout:
+            rep.exclude('extend-split history %s timed out' % c['name'])
+            continue
+        except Exception as ex:
+            rep.exclude('extend-split history %s raised %r (reported by the C07 check)' % (c['name'], ex))
+            continue
+        traces.append(tr)
+        rep.count(1, key=('es', str(tr['_script'])))
+    return traces
 
 
 def replay(path, seed):
